@@ -70,6 +70,8 @@ def splice(src,contracts):
         if m: newret=' -> (r: '+m.group(1)+')\n'
         else: newret='\n'
         src=src[:pc+1]+newret+c.get('spec','')+'\n'+body+src[bc+1:]
+        if c.get('attr'):
+            ls=src.rfind('\n',0,s0)+1; src=src[:ls]+c['attr']+'\n'+src[ls:]
     return src
 def main():
     tok=drop_display(strip_tests_uses(open(REPO+'token.rs').read()))
